@@ -11,13 +11,13 @@ run_one() {
   mkdir -p "$c"; (cd /repo && git ls-files -z | xargs -0 cp --parents -t "$c") 2>/dev/null
   cp /repo/go.sum "$c/" 2>/dev/null
   if ! (cd "$c" && git apply "$d/patch.diff" 2>/dev/null); then echo "$id SKIP patch does not apply" > "$WORK/$id.out"; rm -rf "$c"; return; fi
-  "$VERIF/bin/lungocheck" -prop ALL -repo "$c" -out "$VERIF" 2>&1 | grep -E "^PROP .* VIOLATED|UNANALYSABLE" > "$WORK/$id.out"
+  "${LUNGOCHECK:-$VERIF/bin/lungocheck}" -prop ALL -repo "$c" -out "$VERIF" 2>&1 | grep -E "^PROP .* VIOLATED|UNANALYSABLE" > "$WORK/$id.out"
   rm -rf "$c"
 }
 export -f run_one; export WORK VERIF
 # optional argument: a grep pattern selecting seed directories; their rows are merged into the existing MATRIX.json
 PAT=${1:-.}
-ls -d "$VERIF"/seeded/*/ | grep -v _confirm | grep -E "$PAT" | xargs -P 6 -I{} bash -c 'run_one {}'
+ls -d "$VERIF"/seeded/*/ | grep -v _confirm | grep -E "$PAT" | xargs -P ${JOBS:-6} -I{} bash -c 'run_one {}'
 python3 - "$WORK" "$VERIF" "$PAT" <<'PY'
 import sys,os,re,json,glob
 work,verif=sys.argv[1],sys.argv[2]
